@@ -7,6 +7,7 @@ import (
 	"fmt"
 	"math/rand"
 	"sort"
+	"strings"
 	"sync"
 	"sync/atomic"
 	"time"
@@ -86,6 +87,7 @@ type OpRec struct {
 // Span is the part of a node's life the harness is sure about (lab clock, microseconds):
 // Joined = its Join/Create had returned; LeaveStart = its Leave was about to be called.
 type Span struct {
+	JoinStart  int64 // its Join was about to be called (0: initial member)
 	Joined     int64
 	LeaveStart int64 // 0 = never asked to leave
 	Left       int64 // 0 = did not leave
@@ -112,9 +114,12 @@ type ChurnResult struct {
 	// PredRegressions: what the predecessor-pointer monitor saw (see Options.MonitorPred)
 	PredRegressions []PredRegression
 	PredSamples     int64
-	Stragglers      int64
-	KVTimeouts     int64
-	HookLog        []string
+	// OverlapSig: the set of kinds of membership operations whose windows overlapped in time, by ring
+	// distance of the two nodes (a coarse, readable abstraction of the interleaving)
+	OverlapSig string
+	Stragglers int64
+	KVTimeouts int64
+	HookLog    []string
 }
 
 var t0 = time.Now()
@@ -493,6 +498,7 @@ func RunChurnKV(cfg ChurnCfg, scratch string) *ChurnResult {
 						continue
 					}
 					c.logf("g%d join %d via %d ...", g, m.ID, via.ID)
+					mark(m.ID, func(sp *Span) { sp.JoinStart = nowUs() })
 					err = m.Join(via)
 					if err == nil {
 						mark(m.ID, func(sp *Span) { sp.Joined = nowUs() })
@@ -544,6 +550,7 @@ func RunChurnKV(cfg ChurnCfg, scratch string) *ChurnResult {
 			} else {
 				m, err := lab.Spawn(newID(r2), be)
 				if err == nil {
+					mark(m.ID, func(sp *Span) { sp.JoinStart = nowUs() })
 					if m.Join(c.entry(r2)) == nil {
 						mark(m.ID, func(sp *Span) { sp.Joined = nowUs() })
 						c.hmu.Lock()
@@ -644,6 +651,7 @@ func RunChurnKV(cfg ChurnCfg, scratch string) *ChurnResult {
 		fmt.Fprintf(&sb, "%s@%d;", e.Point, idx[e.Node])
 	}
 	res.EventSig = sb.String()
+	res.OverlapSig = overlapSig(res.Timeline, nowUs())
 	res.Ops = c.ops
 	res.MemberLog = c.log
 	// the store-level record is cut here: the teardown that follows (every node leaves, exporting
@@ -681,4 +689,80 @@ func (c *churnRun) execOn(m *Member, o OpRec) OpRec {
 	c.joined = save
 	c.hmu.Unlock()
 	return out
+}
+
+// overlapSig abstracts an execution to the set of {join,leave} x {join,leave} pairs whose
+// windows [start, end] overlapped, each tagged with how far apart the two nodes are in ring
+// order (adjacent / one node between / farther), plus whether a failed or abandoned attempt
+// took part.
+func overlapSig(tl map[uint64]*Span, now int64) string {
+	type win struct {
+		id         uint64
+		kind       string
+		from, to   int64
+		incomplete bool
+	}
+	var ids []uint64
+	var wins []win
+	for id, sp := range tl {
+		ids = append(ids, id)
+		if sp.JoinStart != 0 {
+			w := win{id: id, kind: "join", from: sp.JoinStart, to: sp.Joined}
+			if w.to == 0 {
+				w.to, w.incomplete = now, true
+			}
+			wins = append(wins, w)
+		}
+		if sp.LeaveStart != 0 {
+			w := win{id: id, kind: "leave", from: sp.LeaveStart, to: sp.Left}
+			if w.to == 0 {
+				w.to, w.incomplete = now, true
+			}
+			wins = append(wins, w)
+		}
+	}
+	sort.Slice(ids, func(i, j int) bool { return ids[i] < ids[j] })
+	rank := map[uint64]int{}
+	for i, id := range ids {
+		rank[id] = i
+	}
+	set := map[string]bool{}
+	for i := range wins {
+		for j := i + 1; j < len(wins); j++ {
+			a, b := wins[i], wins[j]
+			if a.id == b.id || a.from > b.to || b.from > a.to {
+				continue
+			}
+			d := rank[a.id] - rank[b.id]
+			if d < 0 {
+				d = -d
+			}
+			if n := len(ids); d > n-d {
+				d = n - d
+			}
+			dist := "far"
+			switch d {
+			case 1:
+				dist = "adjacent"
+			case 2:
+				dist = "one-between"
+			}
+			k := []string{a.kind, b.kind}
+			sort.Strings(k)
+			s := k[0] + "||" + k[1] + ":" + dist
+			if a.incomplete || b.incomplete {
+				s += ":with-failed-attempt"
+			}
+			set[s] = true
+		}
+	}
+	var out []string
+	for s := range set {
+		out = append(out, s)
+	}
+	sort.Strings(out)
+	if len(out) == 0 {
+		return "no-overlap"
+	}
+	return strings.Join(out, ",")
 }
